@@ -72,6 +72,9 @@ SelTok(ts, i, o, depth) ==
 SelToks(ts, i, o, depth) == IF i > Len(ts) THEN <<>> ELSE SelTok(ts, i, o, depth) \o SelToks(ts, i + 1, o, depth)
 
 (* ---- value context ---------------------------------------------------------------------------- *)
+(* the math functions: their arguments are calculations, in which + and - need white space on both sides
+   (function names are ASCII case-insensitive) *)
+MathFns == {"calc", "CALC", "Calc", "min", "max", "clamp", "MIN", "Clamp"}
 IsPlusMinus(t) == t.k = "delim" /\ t.v \in {"+", "-"}
 ValGap(ts, i, inCalc) ==
     IF i > 1 /\ inCalc /\ ts[i].w /\ (IsPlusMinus(ts[i]) \/ IsPlusMinus(ts[i - 1])) THEN "req" ELSE "free"
@@ -80,7 +83,7 @@ ValTok(ts, i, o, inCalc) ==
     LET t == ts[i]  g == ValGap(ts, i, inCalc) IN
     CASE IsBlock(t) ->
             <<Out(Opener(t), g, t.id)>>
-            \o ValToks(t.a, 1, o, (t.k = "func" /\ t.v \in {"calc", "CALC", "Calc"}) \/ (inCalc /\ t.k \in {"paren", "func"}))
+            \o ValToks(t.a, 1, o, (t.k = "func" /\ t.v \in MathFns) \/ (inCalc /\ t.k \in {"paren", "func"}))
             \o <<Out(Closer(t), "free", t.id)>>
       [] t.k = "dim" /\ t.unit = "rpx" ->
             <<OutN([k |-> "dim", n |-> t.n, unit |-> "vw", conv |-> TRUE], g, t.id, "rpx")>>
